@@ -1,6 +1,336 @@
-/- C19 — model not written yet (stub so that the driver target exists). -/
-namespace Nitime.C19
+/-
+C19 — event-related estimators (nitime.analysis.EventRelatedAnalyzer; nitime.algorithms.fir;
+nitime.utils.fir_design_matrix).  Core Lean only.
 
-def handle (_args : List String) : String := "bad-op"
+All numerical work is done in EXACT rational arithmetic (`Rat`): the binary64 inputs are read as
+the rationals they denote (`F64.ofFloat`), results are rounded once on output (`F64.toFloat`).
+The property theorems (Props/C19.lean) are about these very definitions (same `Rat` instance).
+
+What mirrors what:
+* `eventTypes`      — `np.unique(events)[np.unique(events) != 0]`
+* `designEntry`     — entry (r, b*L+j) of `utils.fir_design_matrix` (closed form; the code's
+                      accumulation "for every event add eye(L)*sign" is `designEventSum`; equality is
+                      theorem `designEntry_eq_eventSum`; the op `design` ties it to the code)
+* `designOk`        — the slice `fir_matrix[k:k+L]` must have L rows, else numpy raises ValueError
+* `firSolve`        — `algorithms.fir` = pinv(XᵀX)Xᵀy, modelled for full rank as the solution of the
+                      normal equations: own Gauss–Jordan elimination, answer accepted only after the
+                      exact residual check `normalEqHolds` (so every returned answer is a solution)
+* `padFn`, `rollFn` — zero padding by offset / len_et in `__init__`, `np.roll` in `FIR`
+* `etaRow`, `semSqRow`, `positions` — `eta` / `ets` for an event-coded series
+* `etaRowZ`, `eventIndex`           — `eta` / `ets` for an `Events` object (no padding, python
+                      negative-index wrap, `(time / sampling_interval).astype(int)`)
+* `t0Ps`            — `t0 = offset * sampling_interval`
+* `cur : Bool`      — `true`: today's `np.sign(t)` factor in the design matrix; `false`: intended
+                      (no sign; each code's own response is returned).
+-/
+import Nitime.Model.Proto
+import Nitime.Model.F64
+
+namespace Nitime.C19
+open Nitime.Proto
+
+/-! ## sums -/
+
+def sumRange (n : Nat) (f : Nat → Rat) : Rat := ((List.range n).map f).sum
+def sumRangeI (n : Nat) (f : Nat → Int) : Int := ((List.range n).map f).sum
+
+/-! ## event types: sorted distinct non-zero codes -/
+
+def insertUniq (t : Int) : List Int → List Int
+  | [] => [t]
+  | u :: us => if t < u then t :: u :: us else if t = u then u :: us else u :: insertUniq t us
+
+/-- `np.unique` -/
+def uniqueSorted (xs : List Int) : List Int := xs.foldr insertUniq []
+
+/-- `np.unique(ev)[np.unique(ev) != 0]` -/
+def eventTypes (xs : List Int) : List Int := (uniqueSorted xs).filter (fun t => t != 0)
+
+/-! ## FIR design matrix -/
+
+/-- `np.sign(t)` when `cur`, else 1 (intended: no sign convention) -/
+def sgn (cur : Bool) (t : Int) : Int :=
+  if cur then (if t > 0 then 1 else if t < 0 then -1 else 0) else 1
+
+/-- entry (r, c) with c = b*L + j: the event at row r-j (if any) of type `types[b]` puts
+    `sign` on the j-th diagonal element of its identity block -/
+def designEntry (cur : Bool) (ev : Nat → Int) (types : List Int) (L r c : Nat) : Int :=
+  let t := types.getD (c / L) 0
+  if c % L ≤ r ∧ ev (r - c % L) = t ∧ t ≠ 0 then sgn cur t else 0
+
+/-- the code's accumulation: for every event k of type `types[b]`: `M[k:k+L, bL:(b+1)L] += eye(L)*sign` -/
+def designEventSum (cur : Bool) (n : Nat) (ev : Nat → Int) (types : List Int) (L r c : Nat) : Int :=
+  let t := types.getD (c / L) 0
+  sumRangeI n fun k => if ev k = t ∧ t ≠ 0 ∧ k ≤ r ∧ r - k = c % L then sgn cur t else 0
+
+/-- numpy raises ValueError when an event is closer than L to the end (short slice += eye(L)) -/
+def designOk (n : Nat) (ev : Nat → Int) (L : Nat) : Bool :=
+  (List.range n).all fun k => ev k == 0 || k + L ≤ n
+
+/-! ## least squares through the normal equations -/
+
+def gram (n : Nat) (X : Nat → Nat → Int) (a b : Nat) : Int := sumRangeI n fun r => X r a * X r b
+def xty (n : Nat) (X : Nat → Nat → Int) (y : Nat → Rat) (a : Nat) : Rat :=
+  sumRange n fun r => (X r a : Rat) * y r
+
+/-- Gauss–Jordan elimination on the augmented p×(p+1) matrix (first non-zero pivot; exact) -/
+def gaussSolve (p : Nat) (A0 : Array (Array Rat)) : Option (Array Rat) := Id.run do
+  let mut A := A0
+  for c in [0:p] do
+    let mut piv := p
+    for r in [c:p] do
+      if piv == p && (A[r]!)[c]! != 0 then piv := r
+    if piv == p then return none
+    let rowP := A[piv]!
+    let rowC := A[c]!
+    A := (A.set! piv rowC).set! c rowP
+    let d := rowP[c]!
+    let rowN := rowP.map (· / d)
+    A := A.set! c rowN
+    for r in [0:p] do
+      if r != c then
+        let f := (A[r]!)[c]!
+        if f != 0 then
+          A := A.set! r (Array.zipWith (fun a b => a - f * b) (A[r]!) rowN)
+  return some (A.map fun row => row[p]!)
+
+def augmented (n p : Nat) (X : Nat → Nat → Int) (y : Nat → Rat) : Array (Array Rat) :=
+  (Array.range p).map fun a =>
+    ((Array.range p).map fun b => ((gram n X a b : Int) : Rat)).push (xty n X y a)
+
+/-- exact residual check of the normal equations XᵀX x = Xᵀy -/
+def normalEqHolds (n p : Nat) (X : Nat → Nat → Int) (y : Nat → Rat) (x : List Rat) : Bool :=
+  (List.range p).all fun a =>
+    decide (sumRange p (fun b => ((gram n X a b : Int) : Rat) * x.getD b 0) = xty n X y a)
+
+/-- `algorithms.fir` for a full-rank design: `none` = singular / elimination failed -/
+def firSolve (n p : Nat) (X : Nat → Nat → Int) (y : Nat → Rat) : Option (List Rat) :=
+  match gaussSolve p (augmented n p X y) with
+  | none => none
+  | some x => if normalEqHolds n p X y x.toList then some x.toList else none
+
+/-! ## padding, rolling, planted signals -/
+
+/-- `hstack([zeros(o), x, zeros(..)])` as a function of the padded index -/
+def padFn {α} (zero : α) (o N : Nat) (x : Nat → α) (p : Nat) : α :=
+  if o ≤ p ∧ p < o + N then x (p - o) else zero
+
+/-- `np.roll(x, k)` for an array of length n -/
+def rollFn {α} (n k : Nat) (x : Nat → α) (i : Nat) : α := x ((i + n - k % n) % n)
+
+/-- the noise-free linear system of the property: every event k (code ≠ 0) adds the response of its
+    code, `resp (ev k) 0 .. resp (ev k) (L-1)`, starting `off` samples after the event -/
+def planted (n : Nat) (ev : Nat → Int) (resp : Int → Nat → Rat) (off L p : Nat) : Rat :=
+  sumRange n fun k =>
+    if ev k ≠ 0 ∧ k + off ≤ p ∧ p < k + off + L then resp (ev k) (p - (k + off)) else 0
+
+/-! ## event-triggered average / standard error -/
+
+/-- `np.where(events == t)[0]` -/
+def positions (n : Nat) (ev : Nat → Int) (t : Int) : List Nat :=
+  (List.range n).filter fun k => ev k == t
+
+def meanOver (idx : List Nat) (f : Nat → Rat) : Rat := (idx.map f).sum / (idx.length : Rat)
+
+/-- sample j of event k's window, with the optional baseline correction `event_trig -= event_trig[0]` -/
+def trig (cb : Bool) (data : Nat → Rat) (off j k : Nat) : Rat :=
+  if cb then data (k + off + j) - data (k + off) else data (k + off + j)
+
+/-- `np.mean(data[idx + offset], -1)[j]` -/
+def etaRow (cb : Bool) (data : Nat → Rat) (idx : List Nat) (off j : Nat) : Rat :=
+  meanOver idx (trig cb data off j)
+
+/-- square of `stats.sem(…, -1)[j]` = (unbiased variance) / count -/
+def semSqRow (cb : Bool) (data : Nat → Rat) (idx : List Nat) (off j : Nat) : Rat :=
+  let m := etaRow cb data idx off j
+  ((idx.map fun k => (trig cb data off j k - m) * (trig cb data off j k - m)).sum
+     / ((idx.length : Rat) - 1)) / (idx.length : Rat)
+
+/-- python indexing of an array of length N with a possibly negative index (caller checks range) -/
+def dataZ (N : Nat) (data : Nat → Rat) (i : Int) : Rat :=
+  if 0 ≤ i then data i.toNat else data (i + (N : Int)).toNat
+
+/-- Events branch, one sample of one window.  `cb = true` is the INTENDED baseline correction (today's
+    Events branch ignores `correct_baseline`; see finding `eta/events-input/correct-baseline-ignored`) -/
+def trigZ (cb : Bool) (N : Nat) (data : Nat → Rat) (off : Int) (j : Nat) (k : Int) : Rat :=
+  if cb then dataZ N data (k + off + (j : Int)) - dataZ N data (k + off) else dataZ N data (k + off + (j : Int))
+
+/-- Events branch: `data[idx + add_offset]` averaged over the events, no padding -/
+def etaRowZ (cb : Bool) (N : Nat) (data : Nat → Rat) (idx : List Int) (off : Int) (j : Nat) : Rat :=
+  ((idx.map (trigZ cb N data off j)).sum) / (idx.length : Rat)
+
+def semSqRowZ (cb : Bool) (N : Nat) (data : Nat → Rat) (idx : List Int) (off : Int) (j : Nat) : Rat :=
+  let m := etaRowZ cb N data idx off j
+  ((idx.map fun k => (trigZ cb N data off j k - m) * (trigZ cb N data off j k - m)).sum
+     / ((idx.length : Rat) - 1)) / (idx.length : Rat)
+
+/-- `(events.time / sampling_interval).astype(int)`: binary64 quotient of the two int64 picosecond
+    values, truncated toward zero -/
+def eventIndex (timePs siPs : Int) : Int :=
+  F64.trunc (F64.fdiv (F64.ofInt timePs) (F64.ofInt siPs))
+
+/-- `t0 = offset * sampling_interval` (int64 picoseconds) -/
+def t0Ps (off siPs : Int) : Int := off * siPs
+
+/-! ## analyzer level (arrays) -/
+
+def getI (a : Array Int) (i : Nat) : Int := a.getD i 0
+def getR (a : Array Rat) (i : Nat) : Rat := a.getD i 0
+
+/-- `np.array(h).squeeze()` shape -/
+def squeeze (s : List Nat) : List Nat := s.filter (· != 1)
+
+/-- one channel of `FIR`: padded events/data in, coefficient list (types*L) out -/
+def firChannel (cur : Bool) (nPad : Nat) (evPad : Nat → Int) (dataPad : Nat → Rat) (off L : Nat) :
+    Except String (List Rat) :=
+  let rolled := rollFn nPad off evPad
+  let types := eventTypes ((List.range nPad).map rolled)
+  if !designOk nPad rolled L then .error "err ValueError" else
+  let p := types.length * L
+  match firSolve nPad p (designEntry cur rolled types L) dataPad with
+  | none => .error "singular"
+  | some x => .ok x
+
+def showRatAsFloat (q : Rat) : String := showFloat (F64.toFloat q)
+
+def semOut (cnt : Nat) (q : Rat) : String :=
+  if cnt ≤ 1 then showFloat (0.0 / 0.0) else showFloat (Float.sqrt (F64.toFloat q))
+
+structure Job where
+  what : String
+  off : Int
+  L : Nat
+  cb : Bool
+  si : Int
+  nch : Nat      -- 0 = 1-d data
+  N : Nat
+  evch : Nat     -- 0 = 1-d events
+  ev : Array Int
+  data : Array Rat
+
+def header (j : Job) (shape : List Nat) : String :=
+  "ok t0=" ++ toString (t0Ps j.off j.si) ++ " si=" ++ toString j.si ++ " shape=" ++ showNatList (squeeze shape)
+
+/-- event-coded series input (`_is_ts = True`) for one sign variant -/
+def runSeries (cur : Bool) (j : Job) : String :=
+  if j.off < 0 then "err ValueError" else   -- np.zeros with a negative dimension
+  let o := j.off.toNat
+  let C := max j.nch 1
+  let nPad := o + j.N + j.L
+  let evOf (ch : Nat) : Nat → Int :=
+    padFn 0 o j.N (fun i => getI j.ev ((if j.evch = 0 then 0 else ch) * j.N + i))
+  let dataOf (ch : Nat) : Nat → Rat := padFn 0 o j.N (fun i => getR j.data (ch * j.N + i))
+  let typesOf (ch : Nat) : List Int := eventTypes ((List.range nPad).map (evOf ch))
+  let T := (typesOf 0).length
+  if (List.range C).any (fun ch => (typesOf ch).length != T) then "err ValueError" else
+  if j.what = "fir" then
+    let res := (List.range C).map fun ch => firChannel cur nPad (evOf ch) (dataOf ch) o j.L
+    match res.find? (fun r => match r with | .error _ => true | .ok _ => false) with
+    | some (.error e) => e
+    | _ =>
+      let flat := res.flatMap fun r => match r with | .ok x => x | .error _ => []
+      header j [C, T, j.L] ++ " data=" ++ joinList (flat.map showRatAsFloat)
+  else
+    -- eta / ets / etdata : windows must stay inside the padded array (numpy IndexError otherwise)
+    let bad := (List.range C).any fun ch => (typesOf ch).any fun t =>
+      (positions nPad (evOf ch) t).any fun k => j.L > 0 && k + o + j.L > nPad
+    if bad then "err IndexError" else
+    if j.what = "eta" then
+      let flat := (List.range C).flatMap fun ch => (typesOf ch).flatMap fun t =>
+        let idx := positions nPad (evOf ch) t
+        (List.range j.L).map fun jj => showRatAsFloat (etaRow j.cb (dataOf ch) idx o jj)
+      header j [C, T, j.L] ++ " data=" ++ joinList flat
+    else if j.what = "ets" then
+      let flat := (List.range C).flatMap fun ch => (typesOf ch).flatMap fun t =>
+        let idx := positions nPad (evOf ch) t
+        (List.range j.L).map fun jj => semOut idx.length (semSqRow j.cb (dataOf ch) idx o jj)
+      header j [C, T, j.L] ++ " data=" ++ joinList flat
+    else if j.what = "etdata" then
+      let blocks := (List.range C).flatMap fun ch => (typesOf ch).map fun t =>
+        let idx := positions nPad (evOf ch) t
+        (idx.length, idx.flatMap fun k => (List.range j.L).map fun jj => showRatAsFloat (dataOf ch (k + o + jj)))
+      "ok t0=" ++ toString (t0Ps j.off j.si) ++ " si=" ++ toString j.si ++
+        " blocks=" ++ showNatList (blocks.map (·.1)) ++ " data=" ++ joinList (blocks.flatMap (·.2))
+    else "bad-op"
+
+/-- `Events` input: `ev` holds the event times in picoseconds -/
+def runEvents (cb : Bool) (j : Job) : String :=
+  let C := max j.nch 1
+  if j.si = 0 then "bad-si" else
+  let idx : List Int := j.ev.toList.map fun t => eventIndex t j.si
+  let bad := idx.any fun k => (List.range j.L).any fun jj =>
+    let i := k + j.off + (jj : Int)
+    i ≥ (j.N : Int) || i < -(j.N : Int)
+  if bad then "err IndexError" else
+  let dataOf (ch : Nat) : Nat → Rat := fun i => getR j.data (ch * j.N + i)
+  if j.what = "eta" then
+    let flat := (List.range C).flatMap fun ch =>
+      (List.range j.L).map fun jj => showRatAsFloat (etaRowZ cb j.N (dataOf ch) idx j.off jj)
+    header j [C, j.L] ++ " data=" ++ joinList flat
+  else if j.what = "ets" then
+    let flat := (List.range C).flatMap fun ch =>
+      (List.range j.L).map fun jj => semOut idx.length (semSqRowZ cb j.N (dataOf ch) idx j.off jj)
+    header j [C, j.L] ++ " data=" ++ joinList flat
+  else "bad-op"
+
+def hasNeg (j : Job) : Bool := j.ev.any (· < 0)
+
+def parseJob? (args : List String) : Option Job :=
+  match args with
+  | [what, off, L, cb, si, nch, N, evch, ev, data] => do
+    let off ← off.toInt?
+    let L ← L.toNat?
+    let si ← si.toInt?
+    let nch ← nch.toNat?
+    let N ← N.toNat?
+    let evch ← evch.toNat?
+    let ev ← parseIntList? ev
+    let data ← parseFloatList? data
+    some { what, off, L, cb := cb = "1", si, nch, N, evch, ev := ev.toArray,
+           data := (data.map F64.ofFloat).toArray }
+  | _ => none
+
+/-- the design matrix op: `design <L> <events>` → `ok rows cols entries` (row-major) -/
+def runDesign (cur : Bool) (L : Nat) (evl : List Int) : String :=
+  let ev := evl.toArray
+  let n := ev.size
+  let types := eventTypes evl
+  if !designOk n (getI ev) L then "err ValueError" else
+  let p := types.length * L
+  let entries := (List.range n).flatMap fun r => (List.range p).map fun c =>
+    designEntry cur (getI ev) types L r c
+  "ok " ++ toString n ++ " " ++ toString p ++ " " ++ showIntList entries
+
+/-- both sign variants when they can differ (negative codes): `current || intended` -/
+def both (neg : Bool) (f : Bool → String) : String :=
+  let a := f true
+  if neg then
+    let b := f false
+    if a = b then a else a ++ " || " ++ b
+  else a
+
+def handle (args : List String) : String :=
+  match args with
+  | "series" :: rest =>
+    match parseJob? rest with
+    | some j => if j.what = "fir" then both (hasNeg j) (fun cur => runSeries cur j) else runSeries true j
+    | none => "bad-args"
+  | "events" :: rest =>
+    match parseJob? rest with
+    | some j => both j.cb (fun cur => runEvents (j.cb && !cur) j)
+    | none => "bad-args"
+  | ["design", L, ev] =>
+    match L.toNat?, parseIntList? ev with
+    | some L, some evl => both (evl.any (· < 0)) (fun cur => runDesign cur L evl)
+    | _, _ => "bad-args"
+  | ["types", ev] =>
+    match parseIntList? ev with
+    | some evl => "ok " ++ showIntList (eventTypes evl)
+    | none => "bad-args"
+  | ["evindex", t, si] =>
+    match t.toInt?, si.toInt? with
+    | some t, some si => if si = 0 then "bad-si" else "ok " ++ toString (eventIndex t si)
+    | _, _ => "bad-args"
+  | _ => "bad-op"
 
 end Nitime.C19
